@@ -27,12 +27,14 @@ def make_copy(m):
         src = os.path.join("/repo", p)
         if os.path.isdir(src):
             shutil.copytree(src, os.path.join(d, p), ignore=shutil.ignore_patterns("__pycache__"))
-    path = os.path.join(d, m["file"])
-    s = open(path).read()
-    if s.count(m["old"]) != 1:
-        shutil.rmtree(d)
-        raise SystemExit(f"mutant {m['id']}: pattern occurs {s.count(m['old'])} times in {m['file']}")
-    open(path, "w").write(s.replace(m["old"], m["new"]))
+    edits = m.get("edits") or [{"file": m["file"], "old": m["old"], "new": m["new"]}]
+    for e in edits:
+        path = os.path.join(d, e.get("file", m.get("file")))
+        s = open(path).read()
+        if s.count(e["old"]) != 1:
+            shutil.rmtree(d)
+            raise SystemExit(f"mutant {m['id']}: pattern occurs {s.count(e['old'])} times in {path}")
+        open(path, "w").write(s.replace(e["old"], e["new"]))
     return d
 
 
